@@ -1,6 +1,7 @@
 (* Composite_check.v — correspondence between Model/Composite.v and the real
    composite controller: the model is run against the answers the
    implementation received; calls are compared per target. *)
+From MC Require Import Generated.
 From MC Require Export Model.Verdict Model.Composite Model.TracePreds Model.Safe Model.Rolling.
 Local Open Scope list_scope.
 
@@ -335,4 +336,206 @@ Definition C08_check (c : ccase) : verdict :=
   | None => check_with (fun cfg r => C08_no_wait_on_healthy cfg r) proj_all true c
   end.
 
-Definition C07_check := check_with (fun c r => C08_no_wait_on_healthy c r) proj_all true.
+(* ================= C07 / C09: rolling updates on the implementation's trace ================= *)
+Definition rev_events (evs : list ev) : list ev :=
+  filter (fun e => match is_api e with Some q => String.eqb (q_res q) rev_res && is_write q | None => false end) evs.
+
+(* revisions the parent holds before the round (cache) and after it (cache overlaid with this round's accepted writes) *)
+Definition revs_before (c : ccfg) (r : round) (sent : json) : list revision :=
+  map revision_of_json
+      (filter (fun o => controlled_by o (get_uid sent) &&
+                        (String.eqb (get_ns sent) "" || String.eqb (get_ns o) (get_ns sent)))
+              (cached (r_cache r) rev_res)).
+
+Definition revs_after (c : ccfg) (r : round) (sent : json) : list revision :=
+  let before := revs_before c r sent in
+  fold_left (fun (acc : list revision) (e : ev) =>
+    match is_api e with
+    | Some q =>
+        if negb (accepted e) then acc else
+        match q_verb q with
+        | VDelete => filter (fun x => negb (String.eqb (rev_name x) (q_name q))) acc
+        | VCreate => acc ++ [revision_of_json (q_body q)]
+        | VUpdate =>
+            if controlled_by (q_body q) (get_uid sent)
+            then map (fun x => if String.eqb (rev_name x) (q_name q) then revision_of_json (q_body q) else x) acc
+            else acc
+        | _ => acc
+        end
+    | None => acc
+    end) (rev_events (r_events r)) before.
+
+Definition is_latest_rev (c : ccfg) (sent : json) (x : revision) : bool :=
+  match make_patch (obj_map sent) (field_paths c) [] with
+  | Some lp => jeqb (rev_patch x) (JObj lp)
+  | None => false
+  end.
+
+Definition names_of (c : ccfg) (x : revision) : list claim_key :=
+  flat_map (fun ck => if is_rolling c (ck_group ck) (ck_kind ck)
+                      then map (fun n => (ck_group ck, ck_kind ck, n)) (ck_names ck) else []) (rev_children x).
+
+Definition ck_mem (k : claim_key) (l : list claim_key) : bool := existsb (ck_eqb k) l.
+
+(* the hook answer given for the parent as revision x sees it *)
+Definition answer_for (c : ccfg) (sent : json) (x : revision) (evs : list ev) : option hook_resp :=
+  let pview := if is_latest_rev c sent x then Some sent
+               else match rev_patch x with
+                    | JObj pm => match apply_patch (obj_map sent) pm (field_paths c) with
+                                 | Some p' => Some (JObj p') | None => None end
+                    | _ => None end in
+  match pview with
+  | None => None
+  | Some pv =>
+      match find (fun e => match e_call e with
+                           | CHook _ body => jeqb (jget "parent" (obj_map body)) pv
+                           | _ => false end) (hook_events evs) with
+      | Some e => match e_ans e with
+                  | AHook ans => match decode_composite ans with
+                                 | Some hr => Some (mkHR (hr_status hr)
+                                                  (map (default_ns (get_ns sent))
+                                                       (filter (fun x => match x with Some _ => true | None => false end) (hr_children hr)))
+                                                  (hr_resync hr) (hr_finalized hr))
+                                 | None => None end
+                  | _ => None end
+      | None => None
+      end
+  end.
+
+Definition sent_parent (c : ccfg) (r : round) : option json :=
+  (* the latest parent: the hook request whose parent equals what the finalizer step left *)
+  match k_parent (r_cache r) with
+  | None => None
+  | Some p =>
+      match find (fun e => match e_call e with
+                           | CHook _ body => String.eqb (get_rv (jget "parent" (obj_map body))) (get_rv p) ||
+                                             true
+                           | _ => false end) (hook_events (r_events r)) with
+      | Some e => match e_call e with CHook _ body => Some (jget "parent" (obj_map body)) | _ => None end
+      | None => None
+      end
+  end.
+
+(* among the hook requests of the round, the one carrying the unpatched (latest) parent: the one whose
+   revisioned fields equal the live parent's.  All requests share metadata, so take the one whose spec
+   equals the cached parent's spec after the finalizer step; fall back to the first. *)
+Definition latest_sent (c : ccfg) (r : round) : option json :=
+  match k_parent (r_cache r) with
+  | None => None
+  | Some p =>
+      let bodies := flat_map (fun e => match e_call e with CHook _ body => [jget "parent" (obj_map body)] | _ => [] end)
+                             (hook_events (r_events r)) in
+      match find (fun b => jeqb (jget "spec" (obj_map b)) (jget "spec" (obj_map p))) bodies with
+      | Some b => Some b
+      | None => match bodies with b :: _ => Some b | [] => None end
+      end
+  end.
+
+Definition C07_round (c : ccfg) (r : round) : option string :=
+  if negb (any_rolling c) then None else
+  match latest_sent c r with
+  | None => None
+  | Some sent =>
+      if is_deleting sent && negb (should_finalize c sent) then None else
+      let before := revs_before c r sent in
+      let after := revs_after c r sent in
+      match find (is_latest_rev c sent) after with
+      | None => None       (* the revisions were not written (error before): nothing moved *)
+      | Some lat_after =>
+          match answer_for c sent lat_after (r_events r) with
+          | None => None
+          | Some lresp =>
+              let pns := get_ns sent in
+              let l_before := match find (is_latest_rev c sent) before with Some x => names_of c x | None => [] end in
+              let l_after := names_of c lat_after in
+              let old_claimed := flat_map (names_of c) (filter (fun x => negb (is_latest_rev c sent x)) before) in
+              let observed := observed_of c r sent in
+              let ldes := relative_desired pns (hr_children lresp) in
+              let up_to_date := fun (k : claim_key) =>
+                match k with (g, kd, n) =>
+                  match find_observed pns observed g kd n, find_desired ldes g kd n with
+                  | Some child, Some d => match apply_update (obj_map child) (obj_map d) with
+                                          | Ok m => jeqb (JObj m) child | _ => false end
+                  | _, _ => false
+                  end end in
+              let moved := filter (fun k => negb (ck_mem k l_before) && ck_mem k old_claimed) l_after in
+              let gated := filter (fun k => negb (up_to_date k)) moved in
+              if Nat.ltb 1 (List.length gated) then Some "more-than-one-gated-move-in-one-sync" else
+              (* children not yet on latest, in hook order *)
+              let order := flat_map (fun ch => match ch with
+                               | Some o => let g := group_of (get_api_version o) in
+                                           if is_rolling c g (get_kind o) then [(g, get_kind o, relative_name pns o)] else []
+                               | None => [] end) (hr_children lresp) in
+              match gated with
+              | k :: _ =>
+                  (* first in hook order among those not on latest after the free moves *)
+                  let pending := filter (fun x => negb (ck_mem x (filter (fun y => negb (ck_eqb y k)) l_after))) order in
+                  match pending with
+                  | first :: _ => if negb (ck_eqb first k) then Some "gated-move-not-first-in-hook-order" else
+                      (* the gate: everything already on latest is observed, up to date and healthy *)
+                      let on_latest := filter (fun y => negb (ck_eqb y k)) l_after in
+                      if forallb (fun y => match y with (g, kd, n) =>
+                            negb (ck_mem y order) ||
+                            match find_observed pns observed g kd n with
+                            | Some child => up_to_date y && child_status_check (checks_for c g kd) child &&
+                                            negb (String.eqb (match has_strategy c g kd with Some kk => ch_method kk | None => "" end) method_rolling_in_place &&
+                                                  match observed_generation child with
+                                                  | Some og => Z.ltb 0 og && Z.ltb og (get_generation child) | None => false end)
+                            | None => false end end) on_latest
+                      then None else Some "gated-move-although-a-child-on-latest-is-not-healthy"
+                  | [] => Some "gated-move-of-undesired-child"
+                  end
+              | [] => None
+              end
+          end
+      end
+  end.
+
+(* the Updated condition says what happened *)
+Definition C07_condition (c : ccfg) (r : round) : option string :=
+  if negb (any_rolling c) then None else
+  match latest_sent c r, k_parent (r_cache r) with
+  | Some sent, Some parent =>
+      match status_write_cond c parent (r_events r) with
+      | None => None
+      | Some cond =>
+          let reason := cond_field cond "reason" in
+          let st := cond_field cond "status" in
+          if String.eqb reason "OnLatestRevision" && negb (String.eqb st "True") then Some "condition-complete-but-not-true" else
+          if (String.eqb reason "RolloutWaiting" || String.eqb reason "RolloutProgressing") && negb (String.eqb st "False")
+          then Some "condition-in-progress-but-not-false" else
+          if negb (String.eqb reason "OnLatestRevision" || String.eqb reason "RolloutWaiting" || String.eqb reason "RolloutProgressing")
+          then Some "rollout-condition-missing-from-status" else None
+      end
+  | _, _ => None
+  end.
+
+(* C09: revisions first; a failed revision write means no child is touched *)
+Definition is_child_content_write (c : ccfg) (e : ev) : bool :=
+  match is_api e with
+  | Some q => match child_res_of c q with
+              | Some _ => match q_verb q with
+                          | VCreate | VDelete | VPatchApply | VPatchJson => true
+                          | VUpdate => negb (accepted e) || content_changed e
+                          | _ => false end
+              | None => false end
+  | None => false
+  end.
+
+Definition C09_round (c : ccfg) (r : round) : option string :=
+  let evs := after_hook (r_events r) in
+  let revw := rev_events evs in
+  match before_each (fun seen e =>
+          if String.eqb (match is_api e with Some q => q_res q | None => "" end) rev_res &&
+             match is_api e with Some q => is_write q | None => false end &&
+             existsb (is_child_content_write c) seen
+          then Some "revision-written-after-a-child" else None) [] evs with
+  | Some s => Some s
+  | None =>
+      if existsb (fun e => negb (accepted e)) revw && existsb (is_child_content_write c) evs
+      then Some "child-touched-although-revision-write-failed" else None
+  end.
+
+Definition C07_check := check_with (fun c r =>
+  orelse (C07_round c r) (orelse (C07_condition c r) (C08_no_wait_on_healthy c r))) proj_all true.
+Definition C09_check := check_with C09_round proj_all true.
